@@ -42,15 +42,20 @@ func (bi *BnInt) getHexString() string {
 }
 
 func (bi *BnInt) setHexString(s string) error {
+	// on any error the value is reset to 0 (not valid as a key or an id): a failed parse must not
+	// leave the previous value of a reused receiver behind
 	if len(s) < len(PREFIX) || s[:len(PREFIX)] != PREFIX {
+		bi.v.SetInt64(0)
 		return fmt.Errorf("arg failed")
 	}
 	buf := s[len(PREFIX):]
 	if !isHexDigits(buf) {
+		bi.v.SetInt64(0)
 		return fmt.Errorf("arg failed: not a hex number")
 	}
 	v, ok := new(big.Int).SetString(buf, 16)
 	if !ok {
+		bi.v.SetInt64(0)
 		return fmt.Errorf("arg failed: not a hex number")
 	}
 	bi.v.Set(v)
